@@ -555,6 +555,16 @@ Proof.
     apply (loop_fail_keeps force b order m0 s0 ND Ed t Hin Hb).
 Qed.
 
+(* a run that reports results reports exactly one per selected task, in run order, and the executed tasks are the non-skipped ones *)
+Theorem run_results_names force b (s : st) order rs : rr_out D (run force b s order) = RunOk rs ->
+  map r_task rs = map tname order.
+Proof.
+  intros Hout.
+  destruct (run_decomp force b s order) as [[_ E]|(m0 & s0 & pre & Ed & _ & _ & _ & _ & _ & _ & _ & Eo)].
+  - rewrite E in Hout. discriminate.
+  - rewrite Eo in Hout. destruct (loop_shape force b order m0 s0 Ed) as [_ _ _ _ Ee]. apply Ee. exact Hout.
+Qed.
+
 (* with an injective digest ("up to SHA-256 collisions", C04) up to date means: same inputs *)
 Lemma uptodate_inputs (s : st) t : (forall F F', digest F = digest F' -> F = F') ->
   uptodate s t -> exists F, inputs_of (files D s) t = Some F /\ last_ok D s (tname t) = Some F.
